@@ -127,8 +127,9 @@ more('C14', 'field/flow coherence of the Pauli classes, interpretation of the po
      'C14.f in-place conjugation can shrink support and updates the sign; C14.g LinearDict arithmetic cleans with atol=0; C14.h rebuild completeness; C14.i conversions carry the coefficient; '
      'C14.j X/Y/Z power-gate interpretation accounts for global_shift; C14.k PauliStringPhasorGate decomposition == exp(i pi (t- P- + t+ P+)) for every mask on <=3 qubits',
      'multi-qubit PauliSum arithmetic, conjugation by Cliffords, expectation values')
-more('C16', 'truthiness-shortcut rules on readers, field coverage of the sub-circuit serializer',
-     'C16.f x or c only with the zero of the type, a branch on field F uses F; C16.g every CircuitOperation field written or refused and read back, ids arm not reachable with negative repetitions')
+more('C16', 'truthiness-shortcut rules on readers, field coverage of the sub-circuit serializer, schema-typed taint of repeated proto fields into constructors',
+     'C16.f x or c only with the zero of the type, a branch on field F uses F; C16.g every CircuitOperation field written or refused and read back, ids arm not reachable with negative repetitions; '
+     'C16.h no live repeated proto container is stored in a deserialized value')
 more('C17', 'interpretation of metadata chunking and pauliexp', 'C17.e measurement metadata chunks lossless, pauliexp operator and coefficients')
 more('C18', 'type-flow rule on integer accumulators, interpretation of the digit conversions over all small mixed radices and 70-position inputs, additive-accumulation rule, axis-label abstract interpretation of record arrays',
      'C18.d digit folds keep a Python-int accumulator; C18.e the four big-endian conversions compute the positional value and are mutual inverses; C18.f histogram accumulation additive; '
